@@ -10,6 +10,8 @@ satisfiable by an `example` and necessary by a `_needed` witness.
 import WzVerif.Lemmas.Http
 import WzVerif.Lemmas.HttpOpt3
 import WzVerif.Lemmas.HttpEtag
+import WzVerif.Lemmas.HttpAuth
+import WzVerif.Lemmas.HttpCsp
 namespace Wz.Props.C06
 open Wz Wz.Http
 
@@ -251,5 +253,223 @@ theorem etags_roundtrip_needs_no_quote :
 theorem etags_roundtrip_needs_no_lf :
     parseEtags (etagsToHeader ⟨[some ['a', '\n', 'b']], [], false⟩) ≠ ⟨[some ['a', '\n', 'b']], [], false⟩ := by
   decide
+
+/-! ### Range -/
+
+/-- range units: no `=`, already stripped and lower-case (the parser strips and lower-cases them) -/
+abbrev UnitsOk := Wz.Http.UnitsOk
+/-- ranges as `parse_range_header` demands: ascending, non-overlapping `0 ≤ start < stop`;
+an open-ended (`start-`) or suffix (`-n`, n ≥ 1) range only in last position -/
+abbrev rangesOk := Wz.Http.rangesOk
+
+/-- `parse_range_header(Range(units, ranges).to_header())` returns the same units and ranges, for
+single and multiple ranges with `0 ≤ start < stop`, suffix ranges and open-ended ranges, over
+unbounded integers. -/
+theorem range_roundtrip (u : Str) (rs : List (Int × Option Int)) (hu : UnitsOk u = true)
+    (hne : rs ≠ []) (hr : rangesOk 0 rs = true) :
+    parseRangeHeader (rangeToHeader ⟨u, rs⟩) = .ok (some ⟨u, rs⟩) :=
+  range_roundtrip_any u rs hu hne hr
+
+example : UnitsOk "bytes".toList = true ∧ rangesOk 0 [(0, some 500), (500, some 501), (700, none)] = true
+    ∧ rangesOk 0 [(-500, none)] = true ∧ rangesOk 0 [(0, some 1), (-1, none)] = true := by decide
+
+/-- the parser refuses `start ≥ stop` (the constructor of `Range` refuses it too) -/
+theorem range_roundtrip_needs_start_lt_stop : rangeCtor "bytes".toList [(5, some 5)] = .error "ValueError" := by
+  decide
+
+/-- ... overlapping or descending ranges -/
+theorem range_roundtrip_needs_ascending :
+    parseRangeHeader (rangeToHeader ⟨"bytes".toList, [(0, some 10), (5, some 20)]⟩)
+      ≠ .ok (some ⟨"bytes".toList, [(0, some 10), (5, some 20)]⟩) := by decide
+
+/-- ... anything after an open-ended or suffix range -/
+theorem range_roundtrip_needs_open_last :
+    parseRangeHeader (rangeToHeader ⟨"bytes".toList, [(3, none), (5, some 6)]⟩)
+      ≠ .ok (some ⟨"bytes".toList, [(3, none), (5, some 6)]⟩) := by decide
+
+/-- ... an empty range list -/
+theorem range_roundtrip_needs_nonempty :
+    parseRangeHeader (rangeToHeader ⟨"bytes".toList, []⟩) ≠ .ok (some ⟨"bytes".toList, []⟩) := by decide
+
+/-- units are lower-cased by the parser -/
+theorem range_roundtrip_needs_lower_units :
+    parseRangeHeader (rangeToHeader ⟨"Bytes".toList, [(0, some 1)]⟩) ≠ .ok (some ⟨"Bytes".toList, [(0, some 1)]⟩) := by
+  decide
+
+/-! ### Content-Range -/
+
+/-- a content range valid for its length (`is_byte_range_valid`) with units free of white space -/
+abbrev CRangeOk := Wz.Http.CRangeOk
+
+/-- `parse_content_range_header(ContentRange(units, start, stop, length).to_header())` returns the
+same four fields, for every range `is_byte_range_valid` accepts (unknown length `*`, unsatisfied
+range `*/length` included). -/
+theorem contentRange_roundtrip (c : ContentRangeV) (h : CRangeOk c = true) :
+    parseContentRangeHeader (contentRangeToHeader c) = .ok (some c) :=
+  contentRange_roundtrip_any c h
+
+example : CRangeOk ⟨some "bytes".toList, some 0, some 500, some 1000⟩ = true
+    ∧ CRangeOk ⟨some "bytes".toList, none, none, some 0⟩ = true
+    ∧ CRangeOk ⟨some "items".toList, some 7, some 8, none⟩ = true := by decide
+
+/-- units containing white space are split at it -/
+theorem contentRange_roundtrip_needs_units :
+    parseContentRangeHeader (contentRangeToHeader ⟨some "by tes".toList, some 0, some 1, some 2⟩)
+      ≠ .ok (some ⟨some "by tes".toList, some 0, some 1, some 2⟩) := by decide
+
+/-- a range outside its length is refused by the parser (`ContentRange` asserts the same) -/
+theorem contentRange_roundtrip_needs_valid :
+    parseContentRangeHeader (contentRangeToHeader ⟨some "bytes".toList, some 5, some 10, some 3⟩) = .ok none := by
+  decide
+
+/-! ### Age -/
+
+/-- `parse_age(dump_age(n)) == timedelta(seconds=n)` for every non-negative number of seconds a
+`timedelta` can hold. -/
+theorem age_roundtrip (n : Nat) (h : n ≤ Gen.Http.timedeltaMaxSeconds) : parseAge (dumpAge n) = .ok (some n) :=
+  age_roundtrip_any n h
+
+example : (86399999999999 : Nat) ≤ Gen.Http.timedeltaMaxSeconds := by decide
+
+/-- beyond `timedelta.max` the parser answers `None` (the OverflowError is caught) -/
+theorem age_roundtrip_needs_timedelta_range : parseAge (dumpAge 86400000000000) = .ok none := by decide
+
+/-! ### Cache-Control -/
+
+/-- a directive dict: distinct non-empty token keys without `*` -/
+abbrev DictOk := Wz.Http.DictOk
+abbrev CCValFor := Wz.Http.CCValFor
+abbrev ccExpected := Wz.Http.ccExpected
+
+/-- decoding of a generated table row `(attribute, key, empty, type)` -/
+def ccRow (r : String × String × String × String) : Option (Str × CCVal × CCType) :=
+  let ty := if r.2.2.2 == "bool" then some CCType.bool else if r.2.2.2 == "int" then some CCType.int
+    else if r.2.2.2 == "none" then some CCType.str else none
+  let em := if r.2.2.1 == "none" then some CCVal.none else if r.2.2.1 == "true" then some CCVal.true_ else none
+  match ty, em with
+  | some ty, some em => some (r.2.1.toList, em, ty)
+  | _, _ => none
+
+/-- every typed property of `RequestCacheControl` / `ResponseCacheControl` (read from the live
+classes) has a directive key in the domain of `parseDict_dump`, one of the three modelled types and
+one of the two modelled "present without value" results. -/
+theorem cacheControl_table_wellformed :
+    (Gen.Http.requestCacheControl ++ Gen.Http.responseCacheControl).all
+      (fun r => match ccRow r with | some (k, _, _) => KeyOk k | none => false) = true := by
+  decide +kernel
+
+/-- For every typed cache-control property (key, empty, type) and every directive dict `d`:
+setting the property to `v`, serialising with `to_header`, and parsing with
+`parse_cache_control_header` gives back the same directive dict, and the typed getter returns the
+value that was set (`True`/`False` for bool; the int / string; `empty` when set to `True`;
+`None` when unset). -/
+theorem cacheControl_roundtrip (d : Dict (Option Str)) (key : Str) (empty v : CCVal) (ty : CCType)
+    (hd : DictOk d) (hk : KeyOk key = true) (hv : CCValFor ty v = true) :
+    (dumpHeaderDict (setCacheValue d key v ty) >>= parseCacheControl) = .ok (setCacheValue d key v ty)
+    ∧ getCacheValue (setCacheValue d key v ty) key empty ty = .ok (ccExpected ty empty v) :=
+  cacheControl_roundtrip_any d key empty v ty hd hk hv
+
+example : DictOk [("no-store".toList, none), ("max-age".toList, some "5".toList)] ∧ KeyOk "max-stale".toList = true
+    ∧ CCValFor .int (.int (-3)) = true := by
+  refine ⟨⟨by decide, by decide⟩, by decide, by decide⟩
+
+/-- the same, instantiated on every row of the generated property tables -/
+theorem cacheControl_roundtrip_typed (r : String × String × String × String)
+    (hr : r ∈ Gen.Http.requestCacheControl ++ Gen.Http.responseCacheControl)
+    (key : Str) (empty : CCVal) (ty : CCType) (hrow : ccRow r = some (key, empty, ty))
+    (d : Dict (Option Str)) (v : CCVal) (hd : DictOk d) (hv : CCValFor ty v = true) :
+    (dumpHeaderDict (setCacheValue d key v ty) >>= parseCacheControl >>= fun p => getCacheValue p key empty ty)
+      = .ok (ccExpected ty empty v) := by
+  have hall := cacheControl_table_wellformed
+  rw [List.all_eq_true] at hall
+  have hk := hall r hr
+  rw [hrow] at hk
+  obtain ⟨h1, h2⟩ := cacheControl_roundtrip_any d key empty v ty hd hk hv
+  rw [h1]
+  exact h2
+
+/-- an int property holding text that is not an integer reads as `None` (not the text) -/
+theorem cacheControl_int_needs_int_text :
+    getCacheValue [("max-age".toList, some "soon".toList)] "max-age".toList .none .int = .ok .none := by decide
+
+/-! ### Content-Security-Policy -/
+
+/-- directive: stripped, non-empty, no space, no `;` — value: stripped, non-empty, no `;` -/
+abbrev CspItemOk := Wz.Http.CspItemOk
+
+/-- `parse_csp_header(ContentSecurityPolicy(d).to_header()) == d` (same directives, same order). -/
+theorem csp_roundtrip (d : Dict Str) (hok : ∀ x ∈ d, CspItemOk x = true) (hnd : (d.map (·.1)).Nodup) :
+    parseCsp (dumpCsp d) = d :=
+  csp_roundtrip_any d hok hnd
+
+example : (∀ x ∈ [("default-src".toList, "'self'".toList), ("img-src".toList, "data: https://x.example".toList)],
+    CspItemOk x = true) := by decide
+
+theorem csp_roundtrip_needs_no_semicolon :
+    parseCsp (dumpCsp [("a".toList, "b;c".toList)]) ≠ [("a".toList, "b;c".toList)] := by decide
+theorem csp_roundtrip_needs_no_space_in_directive :
+    parseCsp (dumpCsp [("a b".toList, "c".toList)]) ≠ [("a b".toList, "c".toList)] := by decide
+theorem csp_roundtrip_needs_stripped_value :
+    parseCsp (dumpCsp [("a".toList, " b".toList)]) ≠ [("a".toList, " b".toList)] := by decide
+theorem csp_roundtrip_needs_nonempty_value :
+    parseCsp (dumpCsp [("a".toList, [])]) ≠ [("a".toList, [])] := by decide
+
+/-! ### Authorization / WWW-Authenticate -/
+
+abbrev SchemeOk := Wz.Http.SchemeOk
+abbrev AuthTokenOk := Wz.Http.AuthTokenOk
+
+/-- base64: `b64decode(b64encode(bs)) == bs` for every byte string (hand-modelled CPython
+`binascii` state machine, alphabet table by `decide`, bit arithmetic by `omega`). -/
+theorem base64_roundtrip (bs : Bytes) : b64Decode (b64Encode bs) = .ok bs := b64_roundtrip bs
+
+/-- `Authorization.from_header(Authorization("basic", {"username": u, "password": p}).to_header())`
+returns the same credentials for every Unicode user name without `:` and every Unicode password. -/
+theorem basic_roundtrip (u p : Str) (hu : ':' ∉ u) :
+    (authorizationToHeader ⟨"basic".toList, basicParams u p, none⟩ >>= authorizationFromHeader)
+      = .ok (some ⟨"basic".toList, basicParams u p, none⟩) :=
+  basic_roundtrip_any u p hu
+
+example : ':' ∉ "üser name".toList := by decide
+
+/-- a `:` in the user name moves the rest of it into the password -/
+theorem basic_roundtrip_needs_no_colon :
+    (authorizationToHeader ⟨"basic".toList, basicParams "a:b".toList "c".toList, none⟩ >>= authorizationFromHeader)
+      ≠ .ok (some ⟨"basic".toList, basicParams "a:b".toList "c".toList, none⟩) := by decide +kernel
+
+/-- token schemes (`Bearer <token>`): scheme survives `.title()`/`.lower()`, token is stripped and
+has `=` only as trailing padding -/
+theorem token_auth_roundtrip (t tok : Str) (ht : SchemeOk t = true) (htok : AuthTokenOk tok = true) :
+    (authorizationToHeader ⟨t, [], some tok⟩ >>= authorizationFromHeader) = .ok (some ⟨t, [], some tok⟩)
+    ∧ (wwwToHeader ⟨t, [], some tok⟩ >>= wwwFromHeader) = .ok (some ⟨t, [], some tok⟩) :=
+  ⟨token_auth_roundtrip_any t tok ht htok, www_token_roundtrip_any t tok ht htok⟩
+
+example : SchemeOk "bearer".toList = true ∧ AuthTokenOk "abc.def-_~+/==".toList = true := by decide
+
+/-- a `=` that is not trailing makes the parser read parameters instead of a token -/
+theorem token_auth_roundtrip_needs_token :
+    (authorizationToHeader ⟨"bearer".toList, [], some "a=b".toList⟩ >>= authorizationFromHeader)
+      ≠ .ok (some ⟨"bearer".toList, [], some "a=b".toList⟩) := by decide
+
+/-- a scheme name in upper case is lower-cased by the parser -/
+theorem token_auth_roundtrip_needs_lower_scheme :
+    (authorizationToHeader ⟨"Bearer".toList, [], some "t".toList⟩ >>= authorizationFromHeader)
+      ≠ .ok (some ⟨"Bearer".toList, [], some "t".toList⟩) := by decide
+
+/-- parameter schemes (`Digest k=v, ...`) for `Authorization`: non-empty dict of distinct token keys
+without `*`, the first value present -/
+theorem param_auth_roundtrip (t : Str) (x : Str × Option Str) (d : Dict (Option Str))
+    (ht : SchemeOk t = true) (hk : ∀ y ∈ x :: d, KeyOk y.1 = true)
+    (hnd : ((x :: d).map (·.1)).Nodup) (hv : x.2.isSome = true) :
+    (authorizationToHeader ⟨t, x :: d, none⟩ >>= authorizationFromHeader) = .ok (some ⟨t, x :: d, none⟩) :=
+  param_auth_roundtrip_any t x d ht hk hnd hv
+
+example : SchemeOk "digest".toList = true
+    ∧ (∀ y ∈ [("realm".toList, some "a b".toList), ("qop".toList, some "auth".toList)], KeyOk y.1 = true) := by decide
+
+/-- an empty parameter dict serialises to a bare scheme, which reads back as an empty token -/
+theorem param_auth_roundtrip_needs_nonempty :
+    (authorizationToHeader ⟨"digest".toList, [], none⟩ >>= authorizationFromHeader)
+      ≠ .ok (some ⟨"digest".toList, [], none⟩) := by decide
 
 end Wz.Props.C06
